@@ -85,20 +85,7 @@ func (ap *app) conduct(ctx context.Context) (err error) {
 	var interrupt bool
 	// First stage of shutdown: wait for the prompter to finish.
 	verifPoint("conduct.stage1")
-	select {
-	case err := <-th.prErrCh:
-		finalErr = combineErrors(err, finalErr)
-		// ok
-	case err := <-th.spotErrCh:
-		finalErr = combineErrors(err, finalErr)
-		interrupt = true
-	case err := <-th.auErrCh:
-		finalErr = combineErrors(err, finalErr)
-		interrupt = true
-	case err := <-th.colErrCh:
-		finalErr = combineErrors(err, finalErr)
-		interrupt = true
-	}
+	finalErr, interrupt = awaitStage(finalErr, th.prErrCh, th.spotErrCh, th.auErrCh, th.colErrCh)
 	if interrupt {
 		log.Info(ctx, "something went wrong other than prompter, cancelling everything")
 		promptDone()
@@ -116,17 +103,7 @@ func (ap *app) conduct(ctx context.Context) (err error) {
 
 	// Second stage: wait for the spotlights to finish.
 	verifPoint("conduct.stage2")
-	select {
-	case err := <-th.spotErrCh:
-		finalErr = combineErrors(err, finalErr)
-		// ok
-	case err := <-th.auErrCh:
-		finalErr = combineErrors(err, finalErr)
-		interrupt = true
-	case err := <-th.colErrCh:
-		finalErr = combineErrors(err, finalErr)
-		interrupt = true
-	}
+	finalErr, interrupt = awaitStage(finalErr, th.spotErrCh, th.auErrCh, th.colErrCh, nil)
 	if interrupt {
 		log.Info(ctx, "something went wrong after prompter terminated: cancelling spotlights, audience and collector")
 		allSpotsDone()
@@ -142,14 +119,7 @@ func (ap *app) conduct(ctx context.Context) (err error) {
 
 	// Third stage: wait for the auditors to finish.
 	verifPoint("conduct.stage3")
-	select {
-	case err := <-th.auErrCh:
-		finalErr = combineErrors(err, finalErr)
-		// ok
-	case err := <-th.colErrCh:
-		finalErr = combineErrors(err, finalErr)
-		interrupt = true
-	}
+	finalErr, interrupt = awaitStage(finalErr, th.auErrCh, th.colErrCh, nil, nil)
 	if interrupt {
 		log.Info(ctx, "something went wrong after spotlights terminated, cancelling audience and collector")
 		auDone()
@@ -168,6 +138,43 @@ func (ap *app) conduct(ctx context.Context) (err error) {
 	colDone() // in case not called before.
 
 	return finalErr
+}
+
+// awaitStage waits until the component reporting on own has
+// finished, and adds its error to finalErr. It also listens to the
+// components of the later stages. One of them finishing first with
+// an error means something went wrong: interrupt is returned true
+// and the caller cancels everything. One of them finishing first
+// without error merely means that the shutdown cascade got there
+// before the conductor looked (each component stops once the previous
+// one told it to): this is not a reason to cancel the components
+// that are still delivering their last events, so awaitStage keeps
+// waiting. The error channels are closed after their only send, so
+// the caller can still read them afterwards.
+func awaitStage(
+	finalErr error, own, later1, later2, later3 <-chan error,
+) (_ error, interrupt bool) {
+	for {
+		select {
+		case err := <-own:
+			return combineErrors(err, finalErr), false
+		case err := <-later1:
+			if err != nil {
+				return combineErrors(err, finalErr), true
+			}
+			later1 = nil
+		case err := <-later2:
+			if err != nil {
+				return combineErrors(err, finalErr), true
+			}
+			later2 = nil
+		case err := <-later3:
+			if err != nil {
+				return combineErrors(err, finalErr), true
+			}
+			later3 = nil
+		}
+	}
 }
 
 type theater struct {
